@@ -286,3 +286,233 @@ class check_attributes_for_sql:
 
     def raises_AttributeMissingError(self):
         return not required_present(self)
+
+
+# ------------------------------------------------------------------------------------------ references (C04, C17)
+from itertools import chain
+from pydbml.exceptions import TableNotFoundError, DBMLError, UnknownDatabaseError
+
+
+def all_attached(ref):
+    return all(c.table is not None for c in ref.col1) and all(c.table is not None for c in ref.col2)
+
+
+def same_table(cols):
+    return all(c.table == cols[0].table for c in cols)
+
+
+def mixed_side(ref):
+    """a side that mixes columns of different tables (col2 is only looked at when col1 is fine)"""
+    return not same_table(ref.col1) or (len(ref.col2) > 0 and not same_table(ref.col2))
+
+
+@contract('pydbml._classes.reference:Reference._validate')
+class ref_validate:
+    properties = ('C17',)
+    params = {'self': 'Reference'}
+    pure = True
+
+    def raises_IndexError(self):
+        return len(self.col1) == 0 or (same_table(self.col1) and len(self.col2) == 0)
+
+    def raises_DBMLError(self):
+        return len(self.col1) > 0 and mixed_side(self)
+
+
+@contract('pydbml._classes.reference:Reference.inline')
+class ref_inline:
+    inline = True
+
+
+@contract('pydbml._classes.reference:Reference.table1')
+class ref_table1:
+    properties = ('C17', 'C05')
+    params = {'self': 'Reference'}
+    pure = True
+    ret = 'Optional[Table]'
+
+    def raises_IndexError(self):
+        return len(self.col1) == 0 or (same_table(self.col1) and len(self.col2) == 0)
+
+    def raises_DBMLError(self):
+        return len(self.col1) > 0 and mixed_side(self)
+
+    def ensures_first(self, result):
+        return result is self.col1[0].table
+
+
+@contract('pydbml._classes.reference:Reference.table2')
+class ref_table2:
+    properties = ('C17', 'C05')
+    params = {'self': 'Reference'}
+    pure = True
+    ret = 'Optional[Table]'
+
+    def raises_IndexError(self):
+        return len(self.col1) == 0 or (same_table(self.col1) and len(self.col2) == 0)
+
+    def raises_DBMLError(self):
+        return len(self.col1) > 0 and mixed_side(self)
+
+    def ensures_first(self, result):
+        return result is self.col2[0].table
+
+
+def sql_col_names(cols):
+    return ', '.join('"' + c.name + '"' for c in cols)
+
+
+def cols_named(cols):
+    return all(c.name is not None for c in cols)
+
+
+@contract('pydbml.renderer.sql.default.reference:col_names')
+class col_names:
+    properties = ('C04',)
+    params = {'cols': 'List[Column]'}
+    pure = True
+    ret = 'str'
+
+    def requires_named(cols):
+        return cols_named(cols)
+
+    def returns(cols):
+        return sql_col_names(cols)
+
+    def ensures_in_order(cols, result):
+        return result == sql_col_names(cols)
+
+
+@contract('pydbml.renderer.sql.default.reference:validate_for_sql')
+class validate_for_sql:
+    properties = ('C17',)
+    params = {'model': 'Reference'}
+    pure = True
+
+    def raises_TableNotFoundError(model):
+        return not all_attached(model)
+
+
+@contract('pydbml.renderer.sql.default.reference:escape_braces')
+class escape_braces:
+    inline = True
+
+
+def esc(text):
+    return text.replace('{', '{{').replace('}', '}}')
+
+
+def ref_tables_named(model):
+    return (len(model.col1) > 0 and len(model.col2) > 0 and all_attached(model)
+            and cols_named(model.col1) and cols_named(model.col2)
+            and model.col1[0].table.name is not None and model.col1[0].table.schema is not None
+            and model.col2[0].table.name is not None and model.col2[0].table.schema is not None)
+
+
+def fk_tail(model):
+    return ((' ON UPDATE ' + esc(model.on_update.upper())) if model.on_update else '') + \
+        ((' ON DELETE ' + esc(model.on_delete.upper())) if model.on_delete else '')
+
+
+@contract('pydbml.renderer.sql.default.reference:generate_inline_sql')
+class generate_inline_sql:
+    """FOREIGN KEY (source columns, in order) REFERENCES <table of ref_col> (ref columns, in order)
+    [ON UPDATE ..] [ON DELETE ..] as a str.format template with the {c} placeholder; user text has
+    its braces doubled so that format() gives it back verbatim (C04, C08)."""
+    properties = ('C04', 'C14')
+    params = {'model': 'Reference', 'source_col': 'List[Column]', 'ref_col': 'List[Column]'}
+    pure = True
+    ret = 'str'
+
+    def requires_named(model, source_col, ref_col):
+        return (len(ref_col) > 0 and cols_named(source_col) and cols_named(ref_col)
+                and ref_col[0].table is not None and ref_col[0].table.name is not None
+                and ref_col[0].table.schema is not None)
+
+    def returns(model, source_col, ref_col):
+        return ((esc(sql_comment(model.comment)) if model.comment else '')
+                + '{c}FOREIGN KEY (' + esc(sql_col_names(source_col)) + ') REFERENCES '
+                + esc(sql_name(ref_col[0].table)) + ' (' + esc(sql_col_names(ref_col)) + ')'
+                + fk_tail(model))
+
+    def ensures_template(model, source_col, ref_col, result):
+        return result == ((esc(sql_comment(model.comment)) if model.comment else '')
+                          + '{c}FOREIGN KEY (' + esc(sql_col_names(source_col)) + ') REFERENCES '
+                          + esc(sql_name(ref_col[0].table)) + ' (' + esc(sql_col_names(ref_col)) + ')'
+                          + fk_tail(model))
+
+
+@contract('pydbml.renderer.sql.default.reference:generate_not_inline_sql')
+class generate_not_inline_sql:
+    properties = ('C04', 'C14')
+    params = {'model': 'Reference', 'source_col': 'List[Column]', 'ref_col': 'List[Column]'}
+    pure = True
+    ret = 'str'
+
+    def requires_named(model, source_col, ref_col):
+        return (len(ref_col) > 0 and len(source_col) > 0 and cols_named(source_col) and cols_named(ref_col)
+                and ref_col[0].table is not None and ref_col[0].table.name is not None
+                and ref_col[0].table.schema is not None
+                and source_col[0].table is not None and source_col[0].table.name is not None
+                and source_col[0].table.schema is not None)
+
+    def returns(model, source_col, ref_col):
+        return ((esc(sql_comment(model.comment)) if model.comment else '')
+                + 'ALTER TABLE ' + esc(sql_name(source_col[0].table))
+                + ' ADD {c}FOREIGN KEY (' + esc(sql_col_names(source_col)) + ') REFERENCES '
+                + esc(sql_name(ref_col[0].table)) + ' (' + esc(sql_col_names(ref_col)) + ')'
+                + fk_tail(model) + ';')
+
+    def ensures_template(model, source_col, ref_col, result):
+        return result == ((esc(sql_comment(model.comment)) if model.comment else '')
+                          + 'ALTER TABLE ' + esc(sql_name(source_col[0].table))
+                          + ' ADD {c}FOREIGN KEY (' + esc(sql_col_names(source_col)) + ') REFERENCES '
+                          + esc(sql_name(ref_col[0].table)) + ' (' + esc(sql_col_names(ref_col)) + ')'
+                          + fk_tail(model) + ';')
+
+
+def fk_clause(model, src, ref):
+    """the FOREIGN KEY clause proper (C04): key columns in order, referenced table and columns in
+    order, constraint name, actions"""
+    return ((('CONSTRAINT "' + model.name + '" ') if model.name else '')
+            + 'FOREIGN KEY (' + sql_col_names(src) + ') REFERENCES '
+            + sql_name(ref[0].table) + ' (' + sql_col_names(ref) + ')'
+            + ((' ON UPDATE ' + model.on_update.upper()) if model.on_update else '')
+            + ((' ON DELETE ' + model.on_delete.upper()) if model.on_delete else ''))
+
+
+def sql_reference(model):
+    """`>` and `-`: the key is on col1 referencing col2; `<`: on col2 referencing col1.  Inline: the
+    bare clause; not inline: ALTER TABLE <key-holding table> ADD <clause>;"""
+    head = sql_comment(model.comment) if model.comment else ''
+    if model.type == '>' or model.type == '-':
+        src, ref = model.col1, model.col2
+    else:
+        src, ref = model.col2, model.col1
+    if model._inline:
+        return head + fk_clause(model, src, ref)
+    return head + 'ALTER TABLE ' + sql_name(src[0].table) + ' ADD ' + fk_clause(model, src, ref) + ';'
+
+
+@contract('pydbml.renderer.sql.default.reference:render_reference')
+class render_reference:
+    """One-to-many / many-to-one / one-to-one references (the many-to-many form builds a join
+    table and is covered by the bounded twin C04.B.fk)."""
+    properties = ('C04', 'C17', 'C10', 'C08')
+    params = {'model': 'Reference'}
+    pure = True
+    ret = 'str'
+
+    def requires_kind(model):
+        return model.type == '>' or model.type == '<' or model.type == '-'
+
+    def requires_named(model):
+        return (len(model.col1) > 0 and len(model.col2) > 0 and cols_named(model.col1) and cols_named(model.col2)
+                and all(c.table is None or (c.table.name is not None and c.table.schema is not None) for c in model.col1)
+                and all(c.table is None or (c.table.name is not None and c.table.schema is not None) for c in model.col2))
+
+    def raises_TableNotFoundError(model):
+        return not all_attached(model)
+
+    def ensures_fk(model, result):
+        return result == sql_reference(model)
